@@ -82,6 +82,7 @@ type Env struct {
 	sfMs     int64
 	sfUsed   bool
 	written  map[string]int // bytes written per public-call tag
+	nCrash   int
 	nTorn    int // files that lost a non-empty tail in the last power-loss crash
 	errs     map[string]Iface
 	frozen   bool // after a crash: FS of the dead process is read-only for late threads
@@ -118,7 +119,8 @@ func (e *Env) beforeMutation(desc string) {
 	if e.crashArm && !e.crashed {
 		e.nCrashPt++
 		if e.it.path.Choice(2) == 1 {
-			e.it.path.notes["crash_before"] = fmt.Sprintf("%s (fs op #%d)", desc, len(e.ops))
+			e.nCrash++
+			e.it.path.notes[fmt.Sprintf("crash%d_before", e.nCrash)] = fmt.Sprintf("%s (fs op #%d)", desc, len(e.ops))
 			panic(crashSignal{})
 		}
 	}
